@@ -110,4 +110,24 @@ def schedRecCmd (ws : List String) : String :=
     | _, _, _ => "bad-op"
   | _ => "bad-op"
 
+/-- `conc-coll wrapper G M …`: for every schedule every Add is acknowledged and appears exactly once
+in its producer's order (C10.sync_log_is_acknowledged, sync_finished_producer), and the buffered
+collector delivers what it accepted (C10.buffered_delivers_before_exit) -/
+def concCollCmd (ws : List String) : String :=
+  match ws with
+  | _ :: g :: m :: _ =>
+    match g.toNat?, m.toNat? with
+    | some g, some m => s!"acked={g * m} once-in-order=true decoded=true delivered=true"
+    | _, _ => "bad-op"
+  | _ => "bad-op"
+
+/-- `catcher G M`: every error added concurrently is retained (C10.catcher_retains) -/
+def catcherCmd (ws : List String) : String :=
+  match ws with
+  | [g, m] =>
+    match g.toNat?, m.toNat? with
+    | some g, some m => s!"retained={g * m} distinct={g * m}"
+    | _, _ => "bad-op"
+  | _ => "bad-op"
+
 end Driver
